@@ -627,6 +627,11 @@ def gen_cases(rng, tier, budget):
     for a, b2, c in itertools.product([0, 1, 2, 3, 4, 51, 82, 255], repeat=3):
         d4_emit(base + bytes([a, b2, c]))
         d4_emit(base + bytes([a, b2, c, 4, 1, 2, 3, 4, 255]))
+    # several option 82 / several instances of the rewritten option (right and wrong lengths), with and without End
+    for combo in itertools.product([b"", b"\x52\x02ab", b"\x52\x00", b"\x33\x04\x00\x00\x0e\x10", b"\x33\x02\x01\x02",
+                                    b"\x33\x06\x01\x02\x03\x04\x05\x06", b"\x00", b"\x35\x01\x05"], repeat=3):
+        for tail in (b"", b"\xff", b"\xff\x00\x52\x01a", b"\x52", b"\x33\x04\x01"):
+            d4_emit(base + b"".join(combo) + tail)
     family(rng, tier, lambda r: tlv8([(r.choice([1, 2, 10, 0, 255]), rb(r, r.randint(0, 12))) for _ in range(r.randint(0, 4))]),
            nv, nm, lambda b: (add(case("sub82", [], b)), add(case("sub82p", [], b))))
 
